@@ -37,26 +37,6 @@ func goText(fset *token.FileSet, n ast.Node) string {
 	return wsRe.ReplaceAllString(b.String(), " ")
 }
 
-func leanStr(s string) string {
-	var b strings.Builder
-	b.WriteByte('"')
-	for _, r := range s {
-		switch {
-		case r == '"':
-			b.WriteString("\\\"")
-		case r == '\\':
-			b.WriteString("\\\\")
-		case r == '\n':
-			b.WriteString("\\n")
-		case r < 32 || r > 126:
-			fmt.Fprintf(&b, "\\u{%x}", r)
-		default:
-			b.WriteRune(r)
-		}
-	}
-	b.WriteByte('"')
-	return b.String()
-}
 
 type optRow struct {
 	field, kind, yaml, flag, dflt, fdef string
